@@ -45,9 +45,9 @@ A(M("c13-msg-before-none", "C13", C, "        if solver is not None:\n          
 A(M("c13-handler-reraise", "C13", C, "                \"POA: failed to solve problem using MILP approach, fallback to FCFS\"\n            )\n            return self.fcfs\n", "                \"POA: failed to solve problem using MILP approach, fallback to FCFS\"\n            )\n            raise\n", "handler-no-raise"))
 
 # ---------------------------------------------------------------- C02
-A(M("c02-drop-order", "C02", C, "terms.append(-1 * var * length * order)", "terms.append(-1 * var * length)", "milp-objective-levelk"))
-A(M("c02-sign", "C02", C, "terms.append(-1 * var * length * order)", "terms.append(1 * var * length * order)", "milp-objective-levelk"))
-A(M("c02-level0-test", "C02", C, "                if order == 0:\n                    terms.append(var * length)", "                if order <= 1:\n                    terms.append(var * length)", "milp-objective-cases"))
+A(M("c02-drop-order", "C02", C, "terms.append(-1 * var * length * order)", "terms.append(-1 * var * length)", "milp-objective-coeff"))
+A(M("c02-sign", "C02", C, "terms.append(-1 * var * length * order)", "terms.append(1 * var * length * order)", "milp-objective-coeff"))
+A(M("c02-level0-test", "C02", C, "                if order == 0:\n                    terms.append(var * length)", "                if order <= 1:\n                    terms.append(var * length)", "milp-objective-coeff"))
 A(M("c02-bound", "C02", C, "max_order = max(map(len, graph.values())) + 1", "max_order = max(map(len, graph.values()))", "milp-bound"))
 A(M("c02-continuous", "C02", C, "pulp.LpVariable(f\"x_{i}_{j}\", 0, 1, pulp.LpInteger)", "pulp.LpVariable(f\"x_{i}_{j}\", 0, 1, pulp.LpContinuous)", "milp-binary"))
 A(M("c02-one-level-le", "C02", C, "problem += pulp.lpSum(region_vars) == 1", "problem += pulp.lpSum(region_vars) <= 1", "milp-one-level"))
@@ -56,7 +56,7 @@ A(M("c02-adj-levels", "C02", C, "                for order in range(max_order):\
 A(M("c02-minimize", "C02", C, "pulp.LpMaximize", "pulp.LpMinimize", "milp-sense"))
 A(M("c02-name-swap", "C02", C, "pulp.LpVariable(f\"x_{i}_{j}\"", "pulp.LpVariable(f\"x_{j}_{i}\"", ["milp-name-format", "milp-readback"]))
 A(M("c02-readback-swap", "C02", C, "                orders[i] = order\n\n        return self.__make_dot_bracket(regions, orders)\n\n    def __make", "                orders[order] = i\n\n        return self.__make_dot_bracket(regions, orders)\n\n    def __make", "milp-readback"))
-A(M("c02-length-first", "C02", C, "length = region_by_var[var][2]", "length = region_by_var[var][0]", ["milp-objective-level0", "milp-objective-levelk"]))
+A(M("c02-length-first", "C02", C, "length = region_by_var[var][2]", "length = region_by_var[var][0]", "milp-objective-length"))
 A(M("c02-graph-oneway", ["C02", "C16"], C, "                graph[i].add(j)\n                graph[j].add(i)\n\n        # return all", "                graph[i].add(j)\n\n        # return all", "conflict-graph"))
 A(M("c02-pairs-short", "C02", C, "for i, j in itertools.combinations(range(len(regions)), 2):\n            ri, rj = regions[i], regions[j]\n            k, l, _ = ri\n            m, n, _ = rj\n\n            # is pseudoknot?\n            if (k < m < l < n) or (m < k < n < l):\n                graph[i].add(j)\n                graph[j].add(i)\n\n        # return all", "for i, j in itertools.combinations(range(len(regions) - 1), 2):\n            ri, rj = regions[i], regions[j]\n            k, l, _ = ri\n            m, n, _ = rj\n\n            # is pseudoknot?\n            if (k < m < l < n) or (m < k < n < l):\n                graph[i].add(j)\n                graph[j].add(i)\n\n        # return all", "conflict-pairs"))
 A(M("c02-bound-silent", "C02", C, "max_order = max(map(len, graph.values())) + 1", "max_order = max(map(len, graph.values())) + 2", kind="silent"))
@@ -95,3 +95,26 @@ A(M("c14-labels-set", "C14", AN, "    counter = Counter(labels)\n", "    counter
 A(M("c14-unsorted-links", "C14", "molecule_filter.py", 'for link in sorted(links["entity"])', 'for link in links["entity"]', "order-taint"))
 A(M("c14-random", "C14", AN, "import math\n", "import math\nimport random\n", "nondeterministic-value", edits=[("import math\n", "import math\nimport random\n"), ("    base_pairs = []\n    for residue_i, residue_j, lw in sorted(base_base_pairs):", "    random.shuffle(base_base_pairs)\n    base_pairs = []\n    for residue_i, residue_j, lw in sorted(base_base_pairs):")]))
 A(M("c14-sorted-silent", "C14", T3, "        for base_pair in self.base_pairs2d:\n", "        for base_pair in sorted(set(self.base_pairs2d)):\n", kind="silent"))
+
+A(M("c02-single-expr-silent", "C02", C, "                if order == 0:\n                    terms.append(var * length)\n                else:\n                    terms.append(-1 * var * length * order)\n", "                terms.append(var * length * (1 if order == 0 else -order))\n", kind="silent"))
+A(M("c02-single-expr-bad", "C02", C, "                if order == 0:\n                    terms.append(var * length)\n                else:\n                    terms.append(-1 * var * length * order)\n", "                terms.append(var * length * (1 - order))\n", "milp-objective-coeff"))
+
+# ---------------------------------------------------------------- C03
+TT = "tertiary.py"
+A(M("c03-radius", "C03", AN, "HYDROGEN_BOND_MAX_DISTANCE = 4.0", "HYDROGEN_BOND_MAX_DISTANCE = 3.6", "contact-radius"))
+A(M("c03-window", "C03", AN, "HYDROGEN_BOND_ANGLE_RANGE = (50.0, 130.0)", "HYDROGEN_BOND_ANGLE_RANGE = (40.0, 140.0)", "angle-window"))
+A(M("c03-min-contacts-3", "C03", AN, "if hydrogen_bond_count < 2:", "if hydrogen_bond_count < 3:", "select-min-contacts"))
+A(M("c03-min-contacts-1", "C03", AN, "if hydrogen_bond_count < 2:", "if hydrogen_bond_count < 1:", "select-min-contacts"))
+A(M("c03-cis-60", "C03", AN, "    return \"c\" if -90.0 < torsion < 90.0 else \"t\"", "    return \"c\" if -60.0 < torsion < 90.0 else \"t\"", "cis-trans"))
+A(M("c03-cis-nodegrees", "C03", AN, "torsion = math.degrees(torsion_angle(c1p_i, n9n1_i, n9n1_j, c1p_j))", "torsion = torsion_angle(c1p_i, n9n1_i, n9n1_j, c1p_j)", "cis-trans"))
+A(M("c03-edge-entry", "C03", TT, '        "N1": "W",\n        "C2": "WS",\n        "N3": "S",\n        "N6": "WH",', '        "N1": "H",\n        "C2": "WS",\n        "N3": "S",\n        "N6": "WH",', "table-pinned"))
+A(M("c03-drop-occupied-add", "C03", AN, "        occupied.add((residue_j, edge_j))\n", "", "edge-exclusive"))
+A(M("c03-occupied-wrong-key", "C03", AN, "        if (residue_j, edge_j) in occupied:", "        if (residue_j, edge_i) in occupied:", "edge-exclusive"))
+A(M("c03-extra-filter", "C03", AN, "        residue_i, residue_j, cis_trans, edge_i, edge_j = interaction\n", "        residue_i, residue_j, cis_trans, edge_i, edge_j = interaction\n        if cis_trans == \"t\" and edge_i == \"S\" and edge_j == \"S\":\n            continue\n", "select-extra-filter"))
+A(M("c03-angle2-copy", "C03", AN, "            angle_between_vectors(residue_j.base_normal_vector, vector)", "            angle_between_vectors(residue_i.base_normal_vector, vector)", "angle-operands"))
+A(M("c03-orient-else", "C03", AN, "labels.append((residue_j, residue_i, cis_trans, edge_j, edge_i))", "labels.append((residue_j, residue_i, cis_trans, edge_i, edge_j))", "label-orientation"))
+A(M("c03-drop-same-type", "C03", AN, "        if type_i == type_j:\n            continue\n", "", "contact-skips"))
+A(M("c03-angle-only-one", "C03", AN, "            HYDROGEN_BOND_ANGLE_RANGE[0] < angle1 < HYDROGEN_BOND_ANGLE_RANGE[1]\n            and HYDROGEN_BOND_ANGLE_RANGE[0] < angle2 < HYDROGEN_BOND_ANGLE_RANGE[1]\n", "            HYDROGEN_BOND_ANGLE_RANGE[0] < angle1 < HYDROGEN_BOND_ANGLE_RANGE[1]\n            and HYDROGEN_BOND_ANGLE_RANGE[0] < angle2\n", "angle-window"))
+A(M("c03-normal-atoms", "C03", TT, '            n7 = self.find_atom("N7")\n            n3 = self.find_atom("N3")', '            n7 = self.find_atom("N7")\n            n3 = self.find_atom("N1")', "base-normal"))
+A(M("c03-inline-const-silent", "C03", AN, "kdtree.query_pairs(HYDROGEN_BOND_MAX_DISTANCE)", "kdtree.query_pairs(4.0)", kind="silent"))
+A(M("c03-window-split-silent", "C03", AN, "        if (\n            HYDROGEN_BOND_ANGLE_RANGE[0] < angle1 < HYDROGEN_BOND_ANGLE_RANGE[1]\n            and HYDROGEN_BOND_ANGLE_RANGE[0] < angle2 < HYDROGEN_BOND_ANGLE_RANGE[1]\n        ):", "        lo, hi = HYDROGEN_BOND_ANGLE_RANGE\n        if (lo <= angle1 <= hi) and not (angle2 < lo or angle2 > hi):", kind="silent"))
